@@ -110,6 +110,10 @@ def hostile_kind(path, base):
 STEMS = ['app', 'sys.d', 'a-b', 'x.y.z', 'kern', 'db_1', 'x']
 PLAIN = ['notes.txt', 'README', 'data.json', 'a.b.c', 'log', 'catalog',
          'mylog.txt', 'x.gz', '7', 'app.lo']
+# names containing glob metacharacters (an exact-path registration must not
+# be interpreted as a pattern)
+META = ['a[1].log', 'q?.txt', 'x[ab].log.2', 'star*.log', 'x[ab].log.3.gz',
+        'a1.log', 'b[!c].txt', '[x].log.1']
 
 
 def gen_population(rng, hostile=False):
@@ -140,6 +144,9 @@ def gen_population(rng, hostile=False):
                 names[f"{stem}.log.{num}.gz"] = 'f'
     for n in rng.sample(PLAIN, rng.randint(0, 4)):
         names[n] = 'f'
+    if rng.random() < 0.35:
+        for n in rng.sample(META, rng.randint(1, 4)):
+            names[n] = 'f'
     if rng.random() < 0.6:
         names['sub'] = 'd'
     if rng.random() < 0.5:                      # named like a rotated copy
@@ -209,7 +216,10 @@ def gen_ops(rng, d, names, nsearch):
                               'nomatch*'])
             ops.append((s, 'glob', os.path.join(d, pat)))
         elif files:
-            ops.append((s, 'file', os.path.join(d, rng.choice(files))))
+            meta = [n for n in files if any(c in n for c in '[]?*')]
+            pick = rng.choice(meta) if meta and rng.random() < 0.5 \
+                else rng.choice(files)
+            ops.append((s, 'file', os.path.join(d, pick)))
         else:
             ops.append((s, 'glob', os.path.join(d, 'missing.log')))
     return ops
@@ -330,6 +340,9 @@ def observe(rng, base, dirname, names, depth, hostile):
             'cap_binds': any(v > depth for v in copies.values()),
             'overlap': any(len(v) > 1 for v in exp_search.values()),
             'hostile': hostile, 'whitespace': ws,
+            'metachar_exact_path': any(
+                f == 'file' and any(c in os.path.basename(a) for c in '[]?*')
+                for _, f, a in ops),
             'forms': sorted(set(k for k, _ in denoted))}
     shutil.rmtree(d, ignore_errors=True)
     return {'case': case, 'want': want, 'bad': bad, 'meta': meta}
@@ -681,6 +694,8 @@ def run(chk):
             chk.dist('overlapping-registrations')
         if m['whitespace']:
             chk.dist('whitespace-in-directory-name')
+        if m['metachar_exact_path']:
+            chk.dist('exact-path-with-glob-metacharacters')
         if (m['cap_binds'] or m['overlap']) and o['case'] not in seen:
             chk.coverage['distinct_nontrivial'] += 1
         seen.add(o['case'])
